@@ -1,6 +1,7 @@
 from propsdef import KERNEL, CORR, HARNESS
 
 PROP = {
+    "needs_binary": True,
         "obligations": [
         "Xt.Props.C18.msgpack_frame_recover",
         "Xt.Props.Json.json_frame_recover",
